@@ -9,6 +9,8 @@ mod report;
 mod rng;
 mod w_arena;
 mod w_c09;
+mod w_c11;
+mod w_c12;
 mod w_misc;
 
 use json::J;
@@ -94,6 +96,14 @@ fn main() {
         }
         "c09" => {
             w_c09::run(&args, &mut rep);
+            true
+        }
+        "c11" => {
+            w_c11::run(&args, &mut rep);
+            true
+        }
+        "c12diff" => {
+            w_c12::run(&args, &mut rep);
             true
         }
         "ctor_table" => {
